@@ -17,7 +17,7 @@ Arrs(D, n) == {Arr(f) : f \in [1..n -> D]}
 AllArrs == UNION {Arrs(Dom, n) : n \in 0..MaxLen} \cup Arrs(Dom2, 2)
 NumDom == {IntV(0), IntV(1), IntV(0 - 2), Num(1, 2), Num(0 - 3, 2), IntV(7)}
 NumArrs == UNION {Arrs(NumDom, n) : n \in 0..MaxLen}
-Scalars == {IntV(3), Str(kx), Bool(FALSE), Obj(<< <<ka, IntV(1)>> >>)}
+Scalars == {IntV(3), Str(kx), Bool(FALSE), Obj(<< <<ka, IntV(1)>> >>), Obj(<<>>), Obj(<< <<ka, IntV(1)>>, <<kb, IntV(2)>> >>), Str(<<>>), IntV(0)}    \* a non-array counts as one member, whatever it contains
 
 X == NVar("")
 V(nm) == NVar(nm)
@@ -27,6 +27,7 @@ Fns == { Lam(<<>>, NNum(IntV(7))),
          Lam(<<"v", "i">>, NArray(<<V("v"), V("i")>>)),
          Lam(<<"v", "i", "a">>, NArray(<<V("i"), NCall(V("count"), <<V("a")>>)>>)),
          Lam(<<"v", "i", "a", "z">>, NArray(<<V("i"), NCall(V("exists"), <<V("z")>>)>>)),
+         Lam(<<"v", "i", "a">>, NCall(V("type"), <<V("a")>>)), Lam(<<"v", "i", "a">>, NArray(<<NArray(<<V("a")>>)>>)),                                  \* the third argument is the whole array (also for a one-member or scalar input)
          Lam(<<"v">>, NCmpOp("=", V("v"), NNum(IntV(1)))),
          Lam(<<"v">>, NCond(NCmpOp("=", NCall(V("type"), <<V("v")>>), NStr(<<110, 117, 109, 98, 101, 114>>)), V("v"), NNone)),
          Lam(<<"v", "i">>, NCmpOp(">", V("i"), NNum(IntV(0)))),
